@@ -23,6 +23,8 @@ op_ctx = dict(cls='op', members=['ctx_', 'mut_', 'thread_'], methods=[], atomic=
               pre=THREADS + TRY + [
                   # thread creation: may throw (std::system_error); the new thread runs run()
                   (r'thread_ = std::thread\(\[this\]\(\) noexcept \{ this->run\(\); \}\);', 'if (EV_thread_create(this, &thread_)) { VF_SCOPE_EXIT(&mut_); goto vf_catch; }'),
+                  # the same creation into a local handle (variant form: `std::thread t{[this]...};` then `thread_ = std::move(t);`)
+                  (r'std::thread (\w+)\{\[this\]\(\) noexcept \{ this->run\(\); \}\};', r'vf_thread \1; if (EV_thread_create(this, &\1)) goto vf_catch;'),
                   (r'get_stop_token\(receiver_\)\.stop_requested\(\)', 'EV_stop_requested(this)'),
                   (r'unifex::set_done\(std::move\(receiver_\)\)', 'EV_set_done(this)'),
                   (r'unifex::set_value\(std::move\(receiver_\)\);', 'if (EV_set_value(this)) goto vf_catch;'),
